@@ -181,6 +181,16 @@ def _caller_part(chk):
             cu[':--x'] = 'i'
             cu[':--new'] = 'span'
             errs = []
+            # the very next compile gets the SAME dict objects, changed in place (same size): it must see the new contents
+            nxt = sv.compile(css, ns, custom=cu)
+            if nxt is obj or nxt == obj:
+                errs.append('compiling again with the same dict OBJECTS after they were changed in place returns the selector of the old contents')
+            try:
+                fresh1 = cp._cached_css_compile.__wrapped__(css, ct.Namespaces(dict(ns)), ct.CustomSelectors(dict(cu)), 0)
+                if not (nxt == fresh1) or dict(nxt.namespaces) != dict(ns) or dict(nxt.custom) != dict(cu):
+                    errs.append('compiling again with the same dict OBJECTS after they were changed in place does not give a fresh parse of the new contents')
+            except Exception:
+                pass
             if hash(obj) != h:
                 errs.append('hash of the compiled selector changed after the caller mutated the dict it had passed')
             if dict(obj.namespaces) != ns0 or dict(obj.custom) != cu0:
@@ -229,6 +239,21 @@ def _caller_part(chk):
             bad.append('stores a different mapping than dict(pairs)')
         for b in bad:
             chk.violation('argtype|%s|%s' % (vname, b), 'a selector compiled with maps given as %s %s' % (vname, b), {'cfg': 'caller-values', 'group': 'argument type: ' + b[:40]})
+    # different values are unequal, pairwise, also where Python's hash() collides (hash(-1) == hash(-2), ints 2**61 - 1 apart)
+    sv.purge()
+    distinct = [':nth-child(-n+3)', ':nth-child(-2n+3)', ':nth-child(2n-1)', ':nth-child(2n-2)', ':nth-last-child(-1)', ':nth-last-child(-2)',
+                ':nth-of-type(-n-1)', ':nth-of-type(-n-2)', ':nth-child(2305843009213693951)', ':nth-child(0)', ':nth-child(n+2305843009213693951)', ':nth-child(n)'] + RICH
+    objs = [(p_, sv.compile(p_, {'a': 'urn:1'}, custom={':--x': 'p.q', ':--y': 'b, i'})) for p_ in distinct]
+    for i in range(len(objs)):
+        for j in range(i + 1, len(objs)):
+            chk.count(1)
+            (pa, oa), (pb, ob) = objs[i], objs[j]
+            if oa == ob or not (oa != ob) or (j < 12 and (oa.selectors == ob.selectors or not (oa.selectors != ob.selectors))):      # (the twelve An+B patterns differ in structure)
+                chk.violation('distinct|%s|%s' % (pa, pb), 'selectors compiled from %r and %r compare equal (== %r, != %r, .selectors == %r)' % (
+                    pa, pb, oa == ob, oa != ob, oa.selectors == ob.selectors), {'cfg': 'caller-values', 'group': 'different values equal', 'selector': pa})
+    fa, fb = sv.compile('p > a', flags=2), sv.compile('p > a', flags=2 ** 62)
+    if fa == fb or fa is fb:
+        chk.violation('distinct|flags', 'compile with flags=2 and flags=2**62 gives equal selectors', {'cfg': 'caller-values', 'group': 'different values equal'})
     # the pattern is part of the value: kept as given, and different texts are different values
     pairs = [('[id="\x00pre"]', '[id="\ufffdpre"]'), ('p\x00', 'p\ufffd'), (' p', 'p'), ('p ', 'p'), ('P', 'p'), ('p/**/', 'p'), (r'\70', 'p')]
     sv.purge()
